@@ -14,9 +14,16 @@
 // conditions, retained packs unchanged, configuration applied) and (2) compared with the
 // model: pack sequence (site, count, compressed flag, payload length and hash, record ids)
 // and final state.
+//
+// Beyond the hand-over (fourth round): every handed-over pack is transmitted with the real pack.WritePack,
+// read with pack.ReadPack, decompressed when flagged and opened with ZipPack.GetRecords (checkWire); a few
+// small packs per case are put to the model's wire functions (`W` / `U` driver lines); deterministic
+// histories contain SetTcpClient calls (op `client`; pack lines end in @<client>); the getinstance case
+// also covers WithConfigObserver / WithLogger and the LogSinkPack helper methods.
 package main
 
 import (
+	"bytes"
 	"context"
 	"encoding/json"
 	"fmt"
@@ -24,9 +31,14 @@ import (
 	"strconv"
 	"strings"
 	"sync"
+	"sync/atomic"
 	"time"
 
+	"github.com/whatap/golib/config"
+	"github.com/whatap/golib/lang/pack"
+	"github.com/whatap/golib/logger"
 	"github.com/whatap/golib/logsink/zip"
+	"github.com/whatap/golib/util/hash"
 	"verif/harness/vh"
 )
 
@@ -156,7 +168,8 @@ func main() {
 	if env.Replay == "" {
 		cases = append(cases, witnesses()...)
 		for i := 0; i < nDet; i++ {
-			cases = append(cases, genCase(rng.Fork(), env.Thorough))
+			cr := rng.Fork()
+			cases = append(cases, addClientSwitches(cr, genCase(cr, env.Thorough)))
 		}
 		for i := 0; i < nFree; i++ {
 			cases = append(cases, genFree(rng.Fork(), env.Thorough))
@@ -208,6 +221,19 @@ func main() {
 	if os.Getenv("C16_DUMP") != "" {
 		os.WriteFile(os.Getenv("C16_DUMP"), []byte(strings.Join(lines, "\n")+"\n"), 0o644)
 	}
+	// wire-format probes (ZipPack.Write / Read against Golib.ZipSender.Wire): appended to the same batch
+	type probeRef struct{ job, k int }
+	var prefs []probeRef
+	nMain := len(lines)
+	for i, j := range jobs {
+		if j.res == nil {
+			continue
+		}
+		for k, p := range j.res.Probes {
+			lines = append(lines, p.Line)
+			prefs = append(prefs, probeRef{i, k})
+		}
+	}
 	outs, err := runDriverParallel(env.Driver, lines, 6)
 	if err != nil {
 		// the verdict on the implementation does not depend on the model: keep what was evaluated
@@ -216,6 +242,23 @@ func main() {
 		idx = nil
 	}
 	rep.Note("driver phase done at %.1fs", time.Since(tStart).Seconds())
+	if err == nil {
+		nDiff := 0
+		for k, pr := range prefs {
+			p := jobs[pr.job].res.Probes[pr.k]
+			rep.Count("wire-probe:" + p.Line[:1])
+			if got := outs[nMain+k]; got != p.Want && nDiff < 5 {
+				nDiff++
+				what := "pack.WritePack of a ZipPack"
+				if p.Line[0] == 'U' {
+					what = "pack.ReadPack of a transmitted ZipPack"
+				}
+				rep.Fail("correspondence", "model:wire-differs", what+": implementation "+vh.Clip(p.Want, 200)+"; model "+vh.Clip(got, 200)+" (request "+vh.Clip(p.Line, 200)+")",
+					map[string]interface{}{"case": jobs[pr.job].c, "probe": p, "model": got})
+			}
+		}
+		outs = outs[:nMain]
+	}
 	model := map[int]string{}
 	for k, i := range idx {
 		model[i] = outs[k]
@@ -348,7 +391,7 @@ func distribution(rep *vh.Report, c *Case, packs []string) {
 // singleton in queue mode with the goroutine it starts itself.
 func runGetInstance(c *Case) *caseResult {
 	res := &caseResult{Line: "R fixed 0,0,0,0"}
-	e := newEvalCtx([]RecSpec{{ID: 1, Time: t0, N: 5}, {ID: 2, Time: t0 + 1, N: 0}, {ID: 3, Time: t0 + 2, N: 40}})
+	e := newEvalCtx([]RecSpec{{ID: 1, Time: t0, N: 5}, {ID: 2, Time: t0 + 1, N: 0}, {ID: 3, Time: t0 + 2, N: 40}, {ID: 4, Time: t0 + 3, N: 7, Tags: 2}})
 	defer func() { res.Finds = e.finds }()
 	cl := &recClient{mode: "consume"}
 	var got Settings
@@ -421,8 +464,113 @@ func runGetInstance(c *Case) *caseResult {
 	} else if len(got2) != 1 {
 		e.corr("model:packs-differ", "GetInstance in queue mode: the three records arrived in %d packs, the model batches them into one", len(got2))
 	}
+
+	// the singleton with a configuration observer and a logger (WithConfigObserver, WithLogger): GetInstance
+	// registers the sender with the observer, and the observer's Run(conf) is how a reload reaches
+	// ApplyConfig in production; a transmission error is logged and changes nothing else
+	cl3 := &recClient{mode: "consume", fault: "all"}
+	obs := config.NewConfigObserver()
+	lg := &countLogger{}
+	var snd3 *zip.ZipSendProxyThread
+	conf := &ConfSpec{MaxBuf: ptr(1), ZipMin: ptr(1 << 30)}
+	singleton.Lock()
+	zip.ResetForVerif()
+	o = vh.Guard(func() {
+		snd3 = zip.GetInstance(zip.WithTcpClient(cl3), zip.WithConfigObserver(obs), zip.WithLogger(lg))
+		obs.Run(conf.toConf())
+	})
+	zip.ResetForVerif()
+	singleton.Unlock()
+	if !o.OK() {
+		e.prop("GetInstance:panic", "GetInstance(WithConfigObserver, WithLogger) / ConfigObserver.Run panicked: %s", vh.Clip(o.Panic, 200))
+		return res
+	}
+	want3 := applyConf(want, conf)
+	if got3 := fromVS(snd3.SettingsForVerif()); got3 != want3 {
+		e.prop("ApplyConfig:settings-not-in-force", "GetInstance(WithConfigObserver(obs)); obs.Run(max_buffer_size=1, logsink_zip_min_size=2^30): the settings in force must be %s, the sender runs with %s", want3.String(), got3.String())
+		return res
+	}
+	o = vh.Guard(func() { snd3.Append(e.recs[4].P) })
+	cnt3, len3, _ := snd3.BufferedForVerif()
+	if !o.OK() || cl3.n() != 1 || cnt3 != 0 || len3 != 0 {
+		e.prop("Append:flush-missed", "buffer limit 1 byte put in force through ConfigObserver.Run: one record appended, %d packs handed over, %d records / %d bytes stay buffered %s", cl3.n(), cnt3, len3, vh.Clip(o.Panic, 120))
+	} else {
+		cl3.mu.Lock()
+		h3 := cl3.got[0]
+		cl3.mu.Unlock()
+		if ids3, _ := e.checkPack(h3, "sendAndClear", want3.ZipMin, 0); !eqInts(ids3, []int{4}) {
+			e.prop("emit:not-exactly-once-in-order", "GetInstance(WithConfigObserver): record 4 appended, emitted %s", idsStr(ids3))
+		}
+		if n := lg.errs.Load(); n != 1 {
+			e.corr("WithLogger:transmission-error-not-logged", "the client answered the hand-over with an error: the logger given with WithLogger received %d Errorf calls (1 expected)", n)
+		}
+	}
+	checkRecordAPI(e)
 	return res
 }
+
+// checkRecordAPI exercises the helper methods of LogSinkPack that a caller uses to prepare a record
+// before handing it to the sender (they are not used by the sender itself; implementation only).
+func checkRecordAPI(e *evalCtx) {
+	for _, s := range []RecSpec{{ID: 11, Time: t0, N: 0}, {ID: 12, Time: t0, N: 9, Tags: 3}, {ID: 13, Time: t0, N: 300, Tags: 1, TagHash: 7}, {ID: 15, Time: t0, N: 70000, LongTag: 300, Line0: true}} {
+		p := s.Build()
+		w := s.want()
+		bad := func(m, f string, a ...interface{}) {
+			e.corr("LogSinkPack."+m+":differs", "record %s: "+f, append([]interface{}{s.flags() + "#" + strconv.Itoa(s.ID)}, a...)...)
+		}
+		o := vh.Guard(func() {
+			tb := refTagBytes(w.Tags)
+			if got := p.GetTabAsBytes(); !bytes.Equal(got, tb) {
+				bad("GetTabAsBytes", "%d bytes, the tag table serialises to %d bytes", len(got), len(tb))
+			}
+			if p.GetPackType() != 0x170a || pack.NewZipPack().GetPackType() != 0x170b {
+				bad("GetPackType", "LogSinkPack %#x, ZipPack %#x (0x170a, 0x170b expected)", p.GetPackType(), pack.NewZipPack().GetPackType())
+			}
+			if p.GetContent() != w.Content {
+				bad("GetContent", "returns %d bytes, Content has %d", len(p.GetContent()), len(w.Content))
+			}
+			q := pack.NewLogSinkPack()
+			q.SetContentBytes(p.GetContentBytes())
+			if q.Content != w.Content || q.Line != w.Line {
+				bad("SetContentBytes", "GetContentBytes then SetContentBytes: content %d -> %d bytes, line %d -> %d", len(w.Content), len(q.Content), w.Line, q.Line)
+			}
+			q.SetContent("x" + w.Content)
+			if q.Content != "x"+w.Content {
+				bad("SetContent", "content not replaced")
+			}
+			if _ = p.ToString(); pack.NewZipPack().ToString() == "" {
+				bad("ToString", "empty description")
+			}
+			if got := p.ResetTagHash(); !bytes.Equal(got, tb) || p.TagHash != hash.Hash64(tb) {
+				bad("ResetTagHash", "returns %d bytes (tag table: %d), TagHash %d (hash of the tag bytes: %d)", len(got), len(tb), p.TagHash, hash.Hash64(tb))
+			}
+			// TransferOidToTag: non-zero Oid / Okind / Onode become tags (unless present), TagHash is forgotten
+			t := s.Build()
+			t.Oid, t.Okind, t.Onode, t.TagHash = 5, 0, 9, 77
+			n0 := t.Tags.Size()
+			t.TransferOidToTag()
+			if !t.Tags.ContainsKey("oid") || t.Tags.GetLong("oid") != 5 || t.Tags.ContainsKey("okind") || t.Tags.GetLong("onode") != 9 || t.Tags.Size() != n0+2 || t.TagHash != 0 {
+				bad("TransferOidToTag", "Oid 5, Okind 0, Onode 9, TagHash 77: tags %s, TagHash %d", t.Tags.ToString(), t.TagHash)
+			}
+			t.TagHash = 78
+			t.TransferOidToTag()
+			if t.Tags.Size() != n0+2 || t.TagHash != 78 {
+				bad("TransferOidToTag", "second call: %d tags (%d expected), TagHash %d (78 expected: nothing to transfer)", t.Tags.Size(), n0+2, t.TagHash)
+			}
+		})
+		if !o.OK() {
+			bad("*", "panicked: %s", vh.Clip(o.Panic, 200))
+		}
+	}
+}
+
+// countLogger counts the error reports it receives
+type countLogger struct {
+	logger.EmptyLogger
+	errs atomic.Int64
+}
+
+func (l *countLogger) Errorf(format string, args ...interface{}) { l.errs.Add(1) }
 
 // singleton serialises the uses of the process-wide GetInstance / ResetForVerif pair
 var singleton sync.Mutex
